@@ -397,7 +397,7 @@ func Run(c *core.Ctx) error {
 	}
 
 	if c.WantGen("mut") {
-		for cas := 0; cas < c.Pick(36, 700); cas++ {
+		for cas := 0; cas < c.Pick(36, 1400); cas++ {
 			if !c.Want("mut", cas) {
 				continue
 			}
